@@ -151,17 +151,17 @@ use crate::{
     },
 };
 
-const ACCOUNT_COUNT: u8 = 16;
-const BASE_TIME_SECS: i64 = 1_744_036_762;
-const CHAIN_ID: &str = "test";
-const ASSET_TABLE: [&str; 4] = [
+pub(super) const ACCOUNT_COUNT: u8 = 16;
+pub(super) const BASE_TIME_SECS: i64 = 1_744_036_762;
+pub(super) const CHAIN_ID: &str = "test";
+pub(super) const ASSET_TABLE: [&str; 4] = [
     "nria",
     "transfer/channel-0/utia",
     "transfer/channel-1/uosmo",
     "ugly",
 ];
-const DUMP_CHANNELS: [&str; 3] = ["channel-0", "channel-1", "channel-2"];
-const FEE_KINDS: [&str; 18] = [
+pub(super) const DUMP_CHANNELS: [&str; 3] = ["channel-0", "channel-1", "channel-2"];
+pub(super) const FEE_KINDS: [&str; 18] = [
     "transfer",
     "rollup",
     "ics20w",
@@ -182,23 +182,23 @@ const FEE_KINDS: [&str; 18] = [
     "markets",
 ];
 
-type PResult<T> = Result<T, String>;
+pub(super) type PResult<T> = Result<T, String>;
 
 // ---------------------------------------------------------------------------------------------
 // Naming of entities
 // ---------------------------------------------------------------------------------------------
 
-struct Names {
-    keys: Vec<SigningKey>,
-    addresses: Vec<Address>,
-    by_address: HashMap<[u8; ADDRESS_LEN], usize>,
-    by_verification_key: HashMap<[u8; 32], usize>,
-    assets: Vec<Denom>,
-    by_asset: HashMap<IbcPrefixed, usize>,
+pub(super) struct Names {
+    pub(super) keys: Vec<SigningKey>,
+    pub(super) addresses: Vec<Address>,
+    pub(super) by_address: HashMap<[u8; ADDRESS_LEN], usize>,
+    pub(super) by_verification_key: HashMap<[u8; 32], usize>,
+    pub(super) assets: Vec<Denom>,
+    pub(super) by_asset: HashMap<IbcPrefixed, usize>,
 }
 
 impl Names {
-    fn new() -> Self {
+    pub(super) fn new() -> Self {
         let keys: Vec<SigningKey> = (0..ACCOUNT_COUNT)
             .map(|k| SigningKey::from([0x40 + k; 32]))
             .collect();
@@ -235,7 +235,7 @@ impl Names {
         }
     }
 
-    fn account_index(&self, token: &str) -> PResult<usize> {
+    pub(super) fn account_index(&self, token: &str) -> PResult<usize> {
         let index: usize = token
             .strip_prefix('a')
             .and_then(|digits| digits.parse().ok())
@@ -247,7 +247,7 @@ impl Names {
     }
 
     /// `a<k>` or 40 hex chars.
-    fn address(&self, token: &str) -> PResult<Address> {
+    pub(super) fn address(&self, token: &str) -> PResult<Address> {
         if token.len() == ADDRESS_LEN * 2 && token.chars().all(|c| c.is_ascii_hexdigit()) {
             let bytes = hex::decode(token).map_err(|e| e.to_string())?;
             return Ok(astria_address(&bytes));
@@ -255,7 +255,7 @@ impl Names {
         Ok(self.addresses[self.account_index(token)?])
     }
 
-    fn opt_address(&self, token: &str) -> PResult<Option<Address>> {
+    pub(super) fn opt_address(&self, token: &str) -> PResult<Option<Address>> {
         if token == "-" {
             Ok(None)
         } else {
@@ -263,7 +263,7 @@ impl Names {
         }
     }
 
-    fn asset(&self, token: &str) -> PResult<Denom> {
+    pub(super) fn asset(&self, token: &str) -> PResult<Denom> {
         if let Some(index) = token
             .strip_prefix('s')
             .and_then(|digits| digits.parse::<usize>().ok())
@@ -277,7 +277,7 @@ impl Names {
             .map_err(|e| format!("bad asset `{token}`: {e}"))
     }
 
-    fn rollup(&self, token: &str) -> PResult<RollupId> {
+    pub(super) fn rollup(&self, token: &str) -> PResult<RollupId> {
         let index: u8 = token
             .strip_prefix('r')
             .and_then(|digits| digits.parse().ok())
@@ -285,14 +285,14 @@ impl Names {
         Ok(RollupId::new([index; 32]))
     }
 
-    fn show_address(&self, bytes: &[u8; ADDRESS_LEN]) -> String {
+    pub(super) fn show_address(&self, bytes: &[u8; ADDRESS_LEN]) -> String {
         match self.by_address.get(bytes) {
             Some(index) => format!("a{index}"),
             None => hex::encode(bytes),
         }
     }
 
-    fn show_verification_key(&self, bytes: &[u8]) -> String {
+    pub(super) fn show_verification_key(&self, bytes: &[u8]) -> String {
         match <[u8; 32]>::try_from(bytes)
             .ok()
             .and_then(|bytes| self.by_verification_key.get(&bytes))
@@ -302,14 +302,14 @@ impl Names {
         }
     }
 
-    fn show_asset(&self, asset: &IbcPrefixed) -> String {
+    pub(super) fn show_asset(&self, asset: &IbcPrefixed) -> String {
         match self.by_asset.get(asset) {
             Some(index) => format!("s{index}"),
             None => hex::encode(asset.as_bytes()),
         }
     }
 
-    fn show_rollup(&self, rollup_id: &RollupId) -> String {
+    pub(super) fn show_rollup(&self, rollup_id: &RollupId) -> String {
         let bytes = rollup_id.as_bytes();
         if bytes.iter().all(|b| *b == bytes[0]) {
             format!("r{}", bytes[0])
@@ -320,7 +320,7 @@ impl Names {
 }
 
 /// Sort key placing table names (`a3`, `s1`, `r7`) in numeric order before hex strings.
-fn name_sort_key(name: &str) -> (u8, u64, String) {
+pub(super) fn name_sort_key(name: &str) -> (u8, u64, String) {
     if name.len() >= 2 && name.len() <= 4 {
         if let Ok(index) = name[1..].parse::<u64>() {
             if matches!(name.as_bytes()[0], b'a' | b's' | b'r') {
@@ -336,7 +336,7 @@ fn name_sort_key(name: &str) -> (u8, u64, String) {
 // ---------------------------------------------------------------------------------------------
 
 /// Joins the `Display` output of an error and all its sources.
-fn error_chain<E: std::error::Error + ?Sized>(error: &E) -> String {
+pub(super) fn error_chain<E: std::error::Error + ?Sized>(error: &E) -> String {
     let mut text = error.to_string();
     let mut current = error.source();
     while let Some(source) = current {
@@ -347,13 +347,13 @@ fn error_chain<E: std::error::Error + ?Sized>(error: &E) -> String {
     text
 }
 
-fn report_chain(report: &astria_eyre::eyre::Report) -> String {
+pub(super) fn report_chain(report: &astria_eyre::eyre::Report) -> String {
     format!("{report:#}")
 }
 
 /// The single place where error text is mapped to a short stable word.  The first matching rule
 /// wins.
-fn error_class(text: &str) -> &'static str {
+pub(super) fn error_class(text: &str) -> &'static str {
     let text = text.to_lowercase();
     let has = |needle: &str| text.contains(needle);
     if has("nonce") {
@@ -390,11 +390,11 @@ fn error_class(text: &str) -> &'static str {
     }
 }
 
-fn debug_enabled() -> bool {
+pub(super) fn debug_enabled() -> bool {
     std::env::var_os("VERIF_DEBUG").is_some()
 }
 
-fn classify(context: &str, text: &str) -> &'static str {
+pub(super) fn classify(context: &str, text: &str) -> &'static str {
     if debug_enabled() {
         eprintln!("[verif] {context}: {text}");
     }
@@ -405,13 +405,13 @@ fn classify(context: &str, text: &str) -> &'static str {
 // Script parsing helpers
 // ---------------------------------------------------------------------------------------------
 
-struct KeyValues<'a> {
-    name: &'a str,
-    pairs: Vec<(&'a str, &'a str)>,
+pub(super) struct KeyValues<'a> {
+    pub(super) name: &'a str,
+    pub(super) pairs: Vec<(&'a str, &'a str)>,
 }
 
 impl<'a> KeyValues<'a> {
-    fn parse(name: &'a str, tokens: &[&'a str]) -> PResult<Self> {
+    pub(super) fn parse(name: &'a str, tokens: &[&'a str]) -> PResult<Self> {
         let mut pairs = Vec::new();
         for token in tokens {
             let (key, value) = token
@@ -425,7 +425,7 @@ impl<'a> KeyValues<'a> {
         })
     }
 
-    fn opt(&self, key: &str) -> Option<&'a str> {
+    pub(super) fn opt(&self, key: &str) -> Option<&'a str> {
         self.pairs
             .iter()
             .find(|(candidate, _)| *candidate == key)
@@ -433,16 +433,16 @@ impl<'a> KeyValues<'a> {
     }
 
     /// Returns the value unless absent or `-`.
-    fn opt_some(&self, key: &str) -> Option<&'a str> {
+    pub(super) fn opt_some(&self, key: &str) -> Option<&'a str> {
         self.opt(key).filter(|value| *value != "-")
     }
 
-    fn req(&self, key: &str) -> PResult<&'a str> {
+    pub(super) fn req(&self, key: &str) -> PResult<&'a str> {
         self.opt(key)
             .ok_or_else(|| format!("`{}` requires `{key}=`", self.name))
     }
 
-    fn num<T: std::str::FromStr>(&self, key: &str) -> PResult<T> {
+    pub(super) fn num<T: std::str::FromStr>(&self, key: &str) -> PResult<T> {
         let value = self.req(key)?;
         value
             .parse()
@@ -450,14 +450,14 @@ impl<'a> KeyValues<'a> {
     }
 }
 
-fn parse_num<T: std::str::FromStr>(token: &str) -> PResult<T> {
+pub(super) fn parse_num<T: std::str::FromStr>(token: &str) -> PResult<T> {
     token
         .parse()
         .map_err(|_| format!("bad number `{token}`"))
 }
 
 /// Parses `a0:10,a1:5` style lists.
-fn parse_account_amounts<T: std::str::FromStr>(
+pub(super) fn parse_account_amounts<T: std::str::FromStr>(
     names: &Names,
     value: &str,
 ) -> PResult<Vec<(usize, T)>> {
@@ -474,7 +474,7 @@ fn parse_account_amounts<T: std::str::FromStr>(
     Ok(entries)
 }
 
-fn fee_change(kind: &str, base: u128, multiplier: u128) -> PResult<FeeChange> {
+pub(super) fn fee_change(kind: &str, base: u128, multiplier: u128) -> PResult<FeeChange> {
     Ok(match kind {
         "transfer" => FeeChange::Transfer(FeeComponents::new(base, multiplier)),
         "rollup" => FeeChange::RollupDataSubmission(FeeComponents::new(base, multiplier)),
@@ -498,7 +498,7 @@ fn fee_change(kind: &str, base: u128, multiplier: u128) -> PResult<FeeChange> {
     })
 }
 
-fn parse_action(names: &Names, tokens: &[&str], evids: &mut BTreeSet<String>) -> PResult<Action> {
+pub(super) fn parse_action(names: &Names, tokens: &[&str], evids: &mut BTreeSet<String>) -> PResult<Action> {
     let (name, rest) = tokens
         .split_first()
         .ok_or_else(|| "empty action".to_string())?;
@@ -679,38 +679,38 @@ fn parse_action(names: &Names, tokens: &[&str], evids: &mut BTreeSet<String>) ->
 // Chain state held by the harness
 // ---------------------------------------------------------------------------------------------
 
-struct ManualBlock {
-    height: u64,
-    executed: Vec<ExecutedTransaction>,
+pub(super) struct ManualBlock {
+    pub(super) height: u64,
+    pub(super) executed: Vec<ExecutedTransaction>,
 }
 
-struct Chain {
-    app: App,
-    storage: Storage,
-    manual: Option<ManualBlock>,
+pub(super) struct Chain {
+    pub(super) app: App,
+    pub(super) storage: Storage,
+    pub(super) manual: Option<ManualBlock>,
 }
 
-fn block_time(height: u64) -> Time {
+pub(super) fn block_time(height: u64) -> Time {
     Time::from_unix_timestamp(BASE_TIME_SECS, 0)
         .unwrap()
         .checked_add(Duration::from_secs(height))
         .unwrap()
 }
 
-fn block_hash(height: u64) -> Hash {
+pub(super) fn block_hash(height: u64) -> Hash {
     Hash::Sha256(Sha256::digest(height.to_le_bytes()).into())
 }
 
-fn hex16(bytes: &[u8]) -> String {
+pub(super) fn hex16(bytes: &[u8]) -> String {
     hex::encode(bytes)[..16].to_string()
 }
 
 impl Chain {
-    fn proposer(names: &Names) -> tendermint::account::Id {
+    pub(super) fn proposer(names: &Names) -> tendermint::account::Id {
         names.keys[0].address_bytes().to_vec().try_into().unwrap()
     }
 
-    async fn stored_height(&self) -> u64 {
+    pub(super) async fn stored_height(&self) -> u64 {
         self.app
             .state()
             .get_block_height()
@@ -725,7 +725,7 @@ impl Chain {
     /// The rollup data commitments are generated the way an honest proposer would: over
     /// `committed` (the txs which will actually be executed successfully) and `deposits` (the
     /// deposits those txs will emit).
-    async fn block_data(
+    pub(super) async fn block_data(
         &mut self,
         height: u64,
         txs: &[Arc<CheckedTransaction>],
@@ -775,7 +775,7 @@ impl Chain {
             .collect()
     }
 
-    async fn expanded_block_data(
+    pub(super) async fn expanded_block_data(
         &mut self,
         height: u64,
         data: &[Bytes],
@@ -794,7 +794,7 @@ impl Chain {
         .map_err(|e| error_chain(&e))
     }
 
-    fn finalize_request(
+    pub(super) fn finalize_request(
         names: &Names,
         height: u64,
         txs: Vec<Bytes>,
@@ -817,7 +817,7 @@ impl Chain {
     /// Executes `txs` on the working state exactly like the loop in `finalize_block` does (after
     /// `pre_execute_transactions`), records the error text of every failing tx and the deposits
     /// emitted by the block, and then discards the working state again.
-    async fn dry_run(
+    pub(super) async fn dry_run(
         &mut self,
         names: &Names,
         height: u64,
@@ -852,7 +852,7 @@ impl Chain {
     }
 
     /// Resets the app's working state and execution state the way a new round would.
-    fn reset_round(&mut self) {
+    pub(super) fn reset_round(&mut self) {
         self.app.update_state_for_new_round(&self.storage);
         self.app.write_batch = None;
         self.manual = None;
@@ -860,7 +860,7 @@ impl Chain {
 
     /// Applies `delta`: inside a manual block it is merged into the working state, otherwise it
     /// is committed.
-    async fn apply_delta(&mut self, delta: StateDelta<Arc<StateDelta<Snapshot>>>) {
+    pub(super) async fn apply_delta(&mut self, delta: StateDelta<Arc<StateDelta<Snapshot>>>) {
         if self.manual.is_some() {
             let _ = self.app.apply(delta);
         } else {
@@ -871,7 +871,7 @@ impl Chain {
     }
 }
 
-fn show_validator_updates(names: &Names, updates: &[tendermint::validator::Update]) -> String {
+pub(super) fn show_validator_updates(names: &Names, updates: &[tendermint::validator::Update]) -> String {
     if updates.is_empty() {
         return "-".to_string();
     }
@@ -890,7 +890,7 @@ fn show_validator_updates(names: &Names, updates: &[tendermint::validator::Updat
 
 /// sha256 over all length-prefixed (key, value) pairs of the verifiable and non-verifiable stores
 /// of the given state (which includes uncommitted writes).
-async fn raw_hashes<S: StateRead>(state: &S) -> ([u8; 32], [u8; 32]) {
+pub(super) async fn raw_hashes<S: StateRead>(state: &S) -> ([u8; 32], [u8; 32]) {
     let mut verifiable: Vec<(Vec<u8>, Vec<u8>)> = Vec::new();
     let mut stream = std::pin::pin!(state.prefix_raw(""));
     while let Some(entry) = stream.next().await {
@@ -919,7 +919,7 @@ async fn raw_hashes<S: StateRead>(state: &S) -> ([u8; 32], [u8; 32]) {
 
 /// Everything compared by `exec ... unchanged=`: both raw hashes plus the ephemeral block fees and
 /// cached deposit counts.
-async fn working_state_fingerprint(app: &App) -> String {
+pub(super) async fn working_state_fingerprint(app: &App) -> String {
     let (verifiable, nonverifiable) = raw_hashes(app.state()).await;
     let fees: BTreeMap<String, u128> = app
         .state()
@@ -960,17 +960,17 @@ macro_rules! fee_line {
 // The harness
 // ---------------------------------------------------------------------------------------------
 
-struct Harness {
-    names: Names,
-    out: String,
-    chain: Option<Chain>,
-    txs: HashMap<String, Bytes>,
-    tx_names: HashMap<[u8; 32], String>,
-    evids: BTreeSet<String>,
+pub(super) struct Harness {
+    pub(super) names: Names,
+    pub(super) out: String,
+    pub(super) chain: Option<Chain>,
+    pub(super) txs: HashMap<String, Bytes>,
+    pub(super) tx_names: HashMap<[u8; 32], String>,
+    pub(super) evids: BTreeSet<String>,
 }
 
 impl Harness {
-    fn new() -> Self {
+    pub(super) fn new() -> Self {
         Self {
             names: Names::new(),
             out: String::new(),
@@ -981,12 +981,12 @@ impl Harness {
         }
     }
 
-    fn emit(&mut self, line: impl AsRef<str>) {
+    pub(super) fn emit(&mut self, line: impl AsRef<str>) {
         self.out.push_str(line.as_ref());
         self.out.push('\n');
     }
 
-    async fn run_line(&mut self, line: &str) {
+    pub(super) async fn run_line(&mut self, line: &str) {
         let tokens: Vec<&str> = line.split_whitespace().collect();
         let Some((&op, args)) = tokens.split_first() else {
             return;
@@ -1027,7 +1027,7 @@ impl Harness {
         }
     }
 
-    async fn run_op(&mut self, op: &str, args: &[&str], line: &str) -> PResult<()> {
+    pub(super) async fn run_op(&mut self, op: &str, args: &[&str], line: &str) -> PResult<()> {
         match op {
             "case" => {
                 // Drops the chain only; tx ids stay defined and may be reused in later cases.
@@ -1051,13 +1051,13 @@ impl Harness {
         }
     }
 
-    fn chain(&mut self) -> PResult<&mut Chain> {
+    pub(super) fn chain(&mut self) -> PResult<&mut Chain> {
         self.chain
             .as_mut()
             .ok_or_else(|| "no chain (missing `genesis`)".to_string())
     }
 
-    async fn op_genesis(&mut self, args: &[&str]) -> PResult<()> {
+    pub(super) async fn op_genesis(&mut self, args: &[&str]) -> PResult<()> {
         let kv = KeyValues::parse("genesis", args)?;
         let names = &self.names;
         let accounts: Vec<(usize, u128)> = match kv.opt("acct") {
@@ -1139,7 +1139,7 @@ impl Harness {
         Ok(())
     }
 
-    async fn op_advance(&mut self, args: &[&str]) -> PResult<()> {
+    pub(super) async fn op_advance(&mut self, args: &[&str]) -> PResult<()> {
         let count: u64 = parse_num(args.first().copied().unwrap_or("1"))?;
         let names = &self.names;
         let chain = self
@@ -1174,7 +1174,7 @@ impl Harness {
         Ok(())
     }
 
-    async fn op_mint(&mut self, args: &[&str]) -> PResult<()> {
+    pub(super) async fn op_mint(&mut self, args: &[&str]) -> PResult<()> {
         let [account, asset, amount] = args else {
             return Err("usage: mint <acct> <asset> <amount>".to_string());
         };
@@ -1196,7 +1196,7 @@ impl Harness {
         Ok(())
     }
 
-    async fn op_allowfee(&mut self, args: &[&str]) -> PResult<()> {
+    pub(super) async fn op_allowfee(&mut self, args: &[&str]) -> PResult<()> {
         let [asset] = args else {
             return Err("usage: allowfee <asset>".to_string());
         };
@@ -1216,7 +1216,7 @@ impl Harness {
         Ok(())
     }
 
-    async fn op_escrow(&mut self, args: &[&str]) -> PResult<()> {
+    pub(super) async fn op_escrow(&mut self, args: &[&str]) -> PResult<()> {
         let [channel, asset, amount] = args else {
             return Err("usage: escrow <channel> <asset> <amount>".to_string());
         };
@@ -1242,7 +1242,7 @@ impl Harness {
 
     /// Extension: `ibcchan <channel-id>` writes an open transfer channel (with its own active
     /// tendermint client and open connection) directly into state so that `ics20w` can execute.
-    async fn op_ibcchan(&mut self, args: &[&str]) -> PResult<()> {
+    pub(super) async fn op_ibcchan(&mut self, args: &[&str]) -> PResult<()> {
         use ibc_types::{
             core::{
                 channel::{
@@ -1376,7 +1376,7 @@ impl Harness {
         Ok(())
     }
 
-    fn op_tx(&mut self, args: &[&str]) -> PResult<()> {
+    pub(super) fn op_tx(&mut self, args: &[&str]) -> PResult<()> {
         let [id, signer, nonce, action_tokens @ ..] = args else {
             return Err("usage: tx <id> <signer> <nonce> <action> [; <action>]...".to_string());
         };
@@ -1415,7 +1415,7 @@ impl Harness {
         Ok(())
     }
 
-    async fn op_block(&mut self, args: &[&str]) -> PResult<()> {
+    pub(super) async fn op_block(&mut self, args: &[&str]) -> PResult<()> {
         let names = &self.names;
         let chain = self
             .chain
@@ -1548,7 +1548,7 @@ impl Harness {
         Ok(())
     }
 
-    async fn op_begin(&mut self) -> PResult<()> {
+    pub(super) async fn op_begin(&mut self) -> PResult<()> {
         let names = &self.names;
         let chain = self
             .chain
@@ -1615,7 +1615,7 @@ impl Harness {
         Ok(())
     }
 
-    async fn op_exec(&mut self, args: &[&str]) -> PResult<()> {
+    pub(super) async fn op_exec(&mut self, args: &[&str]) -> PResult<()> {
         let [id] = args else {
             return Err("usage: exec <id>".to_string());
         };
@@ -1696,7 +1696,7 @@ impl Harness {
         Ok(())
     }
 
-    async fn op_end(&mut self) -> PResult<()> {
+    pub(super) async fn op_end(&mut self) -> PResult<()> {
         let names = &self.names;
         let chain = self
             .chain
@@ -1773,7 +1773,7 @@ impl Harness {
         Ok(())
     }
 
-    async fn op_dump(&mut self) -> PResult<()> {
+    pub(super) async fn op_dump(&mut self) -> PResult<()> {
         let names = &self.names;
         let chain = self
             .chain
